@@ -469,6 +469,12 @@ def _set_traits(context, rp, traits):
     to_delete = existing_traits - want_traits
 
     if not to_add and not to_delete:
+        # Nothing to change, but the caller's view of the provider must
+        # still be current: a racing request may have changed the provider
+        # since the generation was compared.
+        sel = sa.select(_RP_TBL.c.generation).where(_RP_TBL.c.id == rp.id)
+        if context.session.execute(sel).scalar() != rp.generation:
+            raise exception.ResourceProviderConcurrentUpdateDetected()
         return
 
     if to_delete:
